@@ -138,16 +138,18 @@ CLAIMS = {
        "splits a character.",
   ref="DESIGN.md section 4 C08"),
  "C14": dict(
-  text="Theorems C14.I1, I2, I3, I4, I5, I6_order, final_quiet, spec_partial: for EVERY request program (nested/sequential requests "
+  text="Theorems C14.spec (= I1 ∧ I2 ∧ I3 ∧ I4 ∧ I5 ∧ I6 of Spec.C14), I6_event, I6_order, final_quiet: for EVERY request program (nested/sequential requests "
        "with reset / exclusive / reset_on_error, reconfigure blocks, teardown_if_alive, nested contexts, try/raise/skip), every "
        "dependency graph, both keep_alive settings and EVERY init/teardown fault oracle, the model of Context + InstanceManager + the "
        "machine re-entrancy counter keeps: at most one object of a class up, init/teardown alternate and nothing is up at the end, a "
        "yielded object is up, without keep-alive a class is down once its last request is released, nothing is up after the outermost "
-       "context exit (also when teardowns raise), and _teardown_order lists every class after the classes it requests. The Spec's six "
+       "context exit (also when teardowns raise), and inside the outermost exit (until a teardown fails) a machine goes down only when no "
+       "machine built from its class is still up. The Spec's six "
        "conditions are evaluated on the callback log of the real tbot.Context with instrumented machine classes (15 000 cases per "
        "quick run; thorough: complete small-scope enumeration of 391 000 programs).",
-  note="partial: I6 is proved in its state form (order list) — the observable form (order of teardown events inside the outermost "
-       "exit) is checked on the implementation but not proved of the model; generator-based from_context is modelled by frames.",
+  note="the full Spec.C14 is proved of the model; the teardown-order clause (I6) is stated for dependency graphs in which an exclusively "
+       "requested class has a single dependant (`exclUnique`; otherwise exclusive=True itself forces an early teardown, as documented); "
+       "generator-based from_context is modelled by frames.",
   ref="DESIGN.md section 4 C14"),
  "C15": dict(
   text="Theorem C15.refinement: for EVERY program, dependency graph, flag combination and fault oracle, the trace of the "
